@@ -2,6 +2,7 @@ package main
 
 import (
 	"fmt"
+	"strings"
 	"go/types"
 	"sort"
 
@@ -12,6 +13,7 @@ func runC10(c *Ctx, r *Report) {
 	r.Rule("C10.R1", "transient state is restored on the panic path: every field of eval.State that some function overwrites, re-enters the evaluator, and writes again (a swap around evaluation: scope, output writer, depth, pipe value) is reset by State.Reset, by EvalOne's recover block, or restored by a defer in that function")
 	r.Rule("C10.R2", "transient state is restored on the error path: from the first write of such a field every path to a return passes the restoring write")
 	r.Rule("C10.R4", "a reset is independent of what it discards: the value State.Reset writes into a field is not computed from any field that Reset itself rewrites (the session scope comes from a field set at creation, not from the current scope)")
+	r.Rule("C10.R5", "recovery touches nothing else: every field State.Reset writes is one of the transient fields derived for R1 (swapped around evaluation); session state (macro store, cache, extensions, limits) is not reset by a failed input")
 	r.Rule("C10.R3", "fresh context per input: EvalOne installs a new context and defers its cancel before evaluating (shared with C09.R5)")
 	r.Rule("C04.R1", "(shared) failed calls leave nothing in the function cache: Cache.Set is confined to non-error results")
 	r.Rule("C05.R1", "(shared) registers acquired on the session environment are released on every exit, including panics (defer)")
@@ -248,6 +250,37 @@ func runC10(c *Ctx, r *Report) {
 	}
 	if n < 3 {
 		r.Undecided("C10.R1: only %d swap-around-evaluation patterns found (expected env, Out, depth, PipeVal)", n)
+	}
+	// R5: recovery puts the transient fields back and touches nothing else
+	{
+		transient := map[string]bool{}
+		for _, o := range r.Obls {
+			if o.Rule == "C10.R1" && strings.HasPrefix(o.Desc, "State.") {
+				transient[strings.TrimPrefix(strings.SplitN(o.Desc, " ", 2)[0], "State.")] = true
+			}
+		}
+		rf := c.SSAFn(c.Fn("eval", "State.Reset"))
+		n5 := 0
+		eachInstr(rf, func(in ssa.Instruction) {
+			s, ok := in.(*ssa.Store)
+			if !ok {
+				return
+			}
+			fa, ok := s.Addr.(*ssa.FieldAddr)
+			if !ok {
+				return
+			}
+			if nn := namedStruct(fa.X.Type()); nn == nil || nn.Obj() != stateT.Obj() {
+				return
+			}
+			n5++
+			fname := st.Field(fa.Field).Name()
+			r.Check(transient[fname], "C10.R5", ssaFuncName(rf), "Reset writes the transient field "+fname+" only", c.Pos(s.Pos()),
+				"State.Reset (run after every recovered panic) overwrites State."+fname+", which no evaluator function swaps around evaluation: it is session state (definitions, macros, caches, configuration), and a failed input then erases it for every later input")
+		})
+		if n5 < 3 {
+			r.Undecided("C10.R5: only %d field writes in State.Reset", n5)
+		}
 	}
 
 	// R3 (shared with C09.R5)
